@@ -150,6 +150,7 @@ func Materialise(s *Scenario) (*Sim, error) {
 		w.EnvMutate(cur, "seed-status", func() { cur.Status = st })
 		sim.podKey[cur.UID] = podKey(cur)
 	}
+	materialiseTopo(w, s) // C02: namespaces, terminating / terminal bound pods (topo.go)
 	// deleting nodes: API delete (finalizers keep them, virtual deletionTimestamp)
 	for _, n := range s.Nodes {
 		if !n.Deleting {
@@ -313,6 +314,9 @@ func absExpr(r corev1.NodeSelectorRequirement) Expr {
 
 func absPodTerm(t corev1.PodAffinityTerm, w int32) PodTerm {
 	out := PodTerm{Key: Short(t.TopologyKey), Sel: map[string]string{}, Ns: append([]string{}, t.Namespaces...), NsAll: t.NamespaceSelector != nil, Weight: int(w)}
+	if t.NamespaceSelector != nil && len(t.NamespaceSelector.MatchLabels) > 0 {
+		out.NsAll, out.NsSel = false, t.NamespaceSelector.MatchLabels
+	}
 	if t.LabelSelector != nil && t.LabelSelector.MatchLabels != nil {
 		out.Sel = t.LabelSelector.MatchLabels
 	}
@@ -322,7 +326,7 @@ func absPodTerm(t corev1.PodAffinityTerm, w int32) PodTerm {
 // AbsPod is the inverse of BuildPod: the logged form of a (possibly relaxed) pod object.
 func AbsPod(p *corev1.Pod) Pod {
 	out := Pod{Name: p.Name, Ns: p.Namespace, Node: p.Spec.NodeName, Labels: p.Labels, Sel: shortLabels(p.Spec.NodeSelector),
-		Created: world.Sec(p.CreationTimestamp.Time)}
+		Created: world.Sec(p.CreationTimestamp.Time), Terminating: p.DeletionTimestamp != nil, Phase: absPhase(p)}
 	for _, r := range p.OwnerReferences {
 		switch r.Kind {
 		case "ReplicaSet":
